@@ -11,6 +11,7 @@ from nsgen import (gen_src, gen_api_tree, gen_map, gen_redeclare_case, caller_te
                    real_serialize, enc_pairs, start_tags, tree_namespaces, bfs_tags)
 
 XML_NS = impl.XML_NS
+XMLNS_NS = "http://www.w3.org/2000/xmlns/"
 REQ = ("From Coq Require Import List NArith.\nFrom Delb.Base Require Import PyStr PyDict.\n"
        "From Delb.Tree Require Import ATree Encode.\nFrom Delb.Ns Require Import Namespaces Prefixes.\n"
        "From Delb.Xml Require Import Plain.\n")
@@ -383,7 +384,9 @@ def fixed_cases():
     maps = [None, {}, {None: "u1"}, {"": "u2"}, {"p": "u1"}, {"ns0": "u1"}, {"ns0": "u2"}, {"ns1": "u1"}, {"ns0": "u3", "ns1": "u2"},
             {"ns0": "other"}, {"p": "u1", "q": "u2"}, {"z": ""}, {"svg": "u1"}, {None: "u1", "": "u2"}, {"xml": "u1"},
             {"p": XML_NS}, {"ns00": "u1"}, {"p": "u1", None: "u2"}, {"xmldsig": "u1"}, {"xmlsec": "u2", "xm": "u1"},
-            {"xmlx": "u1", "x": "u2"}, {"xmlnsx": "u2"}]
+            {"xmlx": "u1", "x": "u2"}, {"xmlnsx": "u2"},
+            # reserved namespaces offered under the default prefix (either spelling) or beside other entries
+            {None: XML_NS}, {"": XML_NS}, {None: XML_NS, "q": "u1"}, {None: XMLNS_NS}, {"": XMLNS_NS}, {"p": XMLNS_NS}]
     return [{"route": "parse", "src": s, "mapping": mapping_json(m)} for s in srcs for m in maps]
 
 
